@@ -568,6 +568,20 @@ Definition complete (e : env) (rows : list (string * row)) (s : sstate) : Prop :
 
 (* ------------------------------------------------------------------ what the decoders see *)
 
+(* SqlTextOutputStream dumps its database with sqlite3's iterdump: SQLite's quote() reads a C
+   string, so a text ends at its first NUL character (finding C08-sql-script-nul) *)
+Fixpoint sql_cut (s : text) : text :=
+  match s with
+  | [] => []
+  | c :: r => if c =? 0 then [] else c :: sql_cut r
+  end.
+
+Definition dump_view (f : fmt) (c : cell) : cell :=
+  match f, c with
+  | FSql, CText s => CText (sql_cut s)
+  | _, _ => c
+  end.
+
 (* one row as an independent reader of the artefact sees it *)
 Definition obs_row (f : fmt) (ti : tinfo) (raw : row) : result (list (string * cell)) :=
   do c <- cleanup_row f raw;
@@ -585,7 +599,7 @@ Definition obs_row (f : fmt) (ti : tinfo) (raw : row) : result (list (string * c
     do phys <- db_physical ti;
     let p := project (fallback ti) c in
     map_result (fun col => match aget col p with
-                           | Some v => do x <- render f (String.eqb col "id") v; Ok (col, x)
+                           | Some v => do x <- render f (String.eqb col "id") v; Ok (col, dump_view f x)
                            | None => Err (Internal "KeyError")
                            end) phys
   end.
@@ -766,7 +780,8 @@ Fixpoint check_case (c : case) : bool :=
                  result_eqb (list_eqb assoc_eqb)
                    (map_result (fun r => map_result (fun col =>
                         match aget col r with
-                        | Some v => do x <- render (db_fmt is_text) (String.eqb col "id") v; Ok (col, x)
+                        | Some v => do x <- render (db_fmt is_text) (String.eqb col "id") v;
+                                    Ok (col, dump_view (db_fmt is_text) x)
                         | None => Err (Internal "KeyError")
                         end) phys) (lget (fst tf) (d_db s)))
                    (Ok (snd tf))
